@@ -5,7 +5,7 @@
    Bounded (all DAGs on <= 4 nodes, all disjoint L,S, all ordered pairs, all Z; kernel computation):
    mag_adjacency_bounded_4, mag_independence_bounded_4 (the full unbounded statement is Spec.mag_full_stmt). *)
 From Coq Require Import List Arith Bool.
-From PG Require Import Base.ListSet Graph.MGraph Graph.MSep C06.Model C06.Spec C06.Enum C06.Proofs C06.NodeLevel C06.Bounded_n4 C06.BoundedProp.
+From PG Require Import Base.ListSet Graph.MGraph Graph.MSep C06.Model C06.Spec C06.Enum C06.Proofs C06.NodeLevel C06.Bounded_n4 C06.BoundedProp C06.Unbounded C06.UnboundedMag.
 Import ListNotations.
 
 Theorem inducing_exact : inducing_exact_stmt.
@@ -66,3 +66,21 @@ Theorem repo_pred_cells_C06 :
   gen_bidir_nbr_enum = gen_bidir_nbr_cells.
 Proof. exact Tie.Preds_C06.cells_C06. Qed.
 Print Assumptions repo_pred_cells_C06.
+
+(* ---- all sizes (round 4) ---- *)
+(* Richardson-Spirtes / Verma-Pearl at path level, for every graph with directed and bidirected edges (bows allowed, not
+   necessarily ancestral) and acyclic directed layer: an inducing path relative to <L,S> exists iff no set of other observed
+   nodes m-separates x and y given S *)
+Theorem inducing_iff_inseparable : forall g L S x y,
+  wf g -> U g = [] -> acyclicb g = true -> incl (x :: y :: S) (V g) ->
+  ~ In x (L ++ S) -> ~ In y (L ++ S) -> (forall v, In v L -> ~ In v S) ->
+  ((exists p, inducing_path_def g L S x p y) <->
+   (forall Z, incl Z (obs g L S) -> ~ In x Z -> ~ In y Z -> ~ msep g [x] [y] (Z ++ S))).
+Proof. exact C06.Unbounded.inducing_iff_inseparable. Qed.
+Print Assumptions inducing_iff_inseparable.
+
+(* the adjacency clause of the property for ALL DAGs, all disjoint L, S *)
+Theorem mag_adjacency_all : forall d L S,
+  is_dag d -> incl (L ++ S) (V d) -> (forall v, In v L -> ~ In v S) -> mag_adjacency_stmt d L S.
+Proof. exact C06.UnboundedMag.mag_adjacency_all. Qed.
+Print Assumptions mag_adjacency_all.
